@@ -110,7 +110,7 @@ def _compile_obligation(ctx, d, fname):
     thms = re.findall(r"^(?:Theorem|Corollary)\s+(\w+)", text, re.M)
     rc, out = V.coqc(fname, d, extra=["-R", d, ""])
     complaints = []
-    for blk in re.split(r"(?m)^(?:cta_|wait_|concurrency_)?complaints =", out)[1:]:
+    for blk in re.split(r"(?m)^(?:cta_|wait_|concurrency_|registry_)?complaints =", out)[1:]:
         body = blk.split("\n     :", 1)[0]
         complaints += [(a, k, s.replace('""', '"')) for a, k, s in _TRIPLE.findall(re.sub(r"\s+", " ", body))]
     complaints = list(dict.fromkeys(complaints))
